@@ -505,14 +505,15 @@ def run_json(cmd, inp=None, timeout=3600, env=None, cwd=None):
 
 # ---------------------------------------------------------------------------- batched trace validation
 
-def split_trace(path, outdir, max_events=20000):
+def split_trace(path, outdir, max_events=20000, independent=False):
     """Split an ndjson trace at "reset" events into chunks of at most max_events lines. Returns [(file, first_line, nlines)]."""
     chunks, cur, n, first, idx = [], None, 0, 1, 0
     lineno = 0
     with open(path) as f:
         for line in f:
             lineno += 1
-            if cur is None or (n >= max_events and line.startswith('{"ev":"reset"')):
+            # a new execution starts at a reset event (key order differs between the Python and the Go writers)
+            if cur is None or (n >= max_events and (independent or '"ev":"reset"' in line[:200])):
                 if cur:
                     cur.close()
                     chunks[-1] = (chunks[-1][0], chunks[-1][1], n)
@@ -538,11 +539,12 @@ def tlc_many(jobs, parallel=None):
         return [f.result() for f in futs]
 
 
-def monitor_trace(module, cfg, trace_path, max_events=20000, heap="2g", timeout=900):
+def monitor_trace(module, cfg, trace_path, max_events=20000, heap="2g", timeout=900, independent=False):
+    # independent: every line is an observation of its own (the monitor keeps no state between lines): chunks may end anywhere
     """Run a monitor specification (accumulating `viol`) over a trace, chunked. Returns (viols [[case,name]..], events, states)."""
     d = scratch("mon")
     try:
-        chunks = split_trace(trace_path, d, max_events)
+        chunks = split_trace(trace_path, d, max_events, independent)
         jobs = [dict(module=module, cfg=cfg, files={"trace.ndjson": c[0]}, heap=heap, timeout=timeout) for c in chunks]
         viols, states, events = [], 0, 0
         for c, r in zip(chunks, tlc_many(jobs)):
